@@ -18,8 +18,8 @@ RULE = ('random histories over {call traced fn (returns/raises, nested, shared n
         'some name holds >=2 samples and a query truncates (max_history < samples) or a call raised; distinct = hash of the op sequence')
 ASSUMPTIONS = ['kfac.tracing reads the clock only through its module attribute `time`',
                'max_history <= 0 is outside the documented domain and is not generated',
-               'sync=True is exercised with torch.distributed.barrier replaced by a counting stub (single process)']
-REQUIRED = ['query_checks', 'call_checks']
+               'sync=True is exercised with torch.distributed.barrier replaced by a counting stub (single process) and, on every 10th case, on 2-3 simulated ranks (simdist) where the barriers are real collectives']
+REQUIRED = ['query_checks', 'call_checks', 'sync_worlds']
 
 
 class Clock:
@@ -186,6 +186,85 @@ def run_case(rng, res, case_id):
     res.count('barrier_calls', barriers[0])
 
 
+def run_sync_case(rng, res, idx):
+    """sync=True on 2-3 simulated ranks: two barriers per call, all matched, values and samples still exact."""
+    import kfac.tracing as tracing
+    from kverif import simdist
+
+    W = rng.choice([2, 3])
+    ncalls = rng.randint(1, 6)
+    plan_ = [(rng.choice(['a', 'b']), rng.random() < 0.2) for _ in range(ncalls)]   # (function, raises?)
+    ticks = {r: [0] for r in range(W)}
+    incs = [[rng.choice([1, 2, 5]) for _ in range(4 * ncalls + 4)] for _ in range(W)]
+    logs = {r: [] for r in range(W)}
+
+    class T:
+        @staticmethod
+        def time():
+            r = simdist.my_rank()
+            ticks[r][0] += incs[r][len(logs[r]) % len(incs[r])]
+            logs[r].append(ticks[r][0])
+            return float(ticks[r][0])
+
+    real_time = tracing.time
+    tracing.time = T
+    tracing.clear_trace()
+    case = dict(idx=idx, kind='sync', W=W, plan=plan_)
+    try:
+        def fn(rank, world):
+            out = []
+            fs = {}
+            for nm in ('a', 'b'):
+                def body(x, boom, nm=nm):
+                    if boom:
+                        raise Boom(nm)
+                    return x
+                body.__name__ = f'{nm}_r{rank}'
+                fs[nm] = tracing.trace(sync=True)(body)
+            for nm, boom in plan_:
+                tok = object()
+                try:
+                    got = fs[nm](tok, boom)
+                    out.append(('ret', got is tok))
+                except Boom:
+                    out.append(('raised', True))
+            return out
+        run = simdist.run_world(W, fn, seed=idx, policy=rng.choice(simdist.POLICIES))
+        got_trace = tracing.get_trace(average=False)
+    finally:
+        tracing.time = real_time
+        tracing.clear_trace()
+    res.count('sync_worlds')
+    if run.failed():
+        # a raising traced function skips its trailing barrier on that rank only if the others do the same: all ranks share the plan
+        return res.violation('traced(sync=True) functions on simulated ranks: ' + run.failure_summary(), case)
+    for r in range(W):
+        nb = sum(1 for e in run.trace if e['rank'] == r and e['kind'] == 'barrier')
+        exp_b = sum(1 if boom else 2 for _, boom in plan_)
+        if nb != exp_b:
+            return res.violation(f'rank {r}: {nb} barriers for {ncalls} synchronised calls ({sum(b for _, b in plan_)} raising), expected {exp_b}', case)
+        for (nm, boom), (kind, ok) in zip(plan_, run.results[r]):
+            if (kind == 'raised') != boom or not ok:
+                return res.violation(f'rank {r}: synchronised traced call did not return the identical object / raise the identical exception', case)
+        # exact samples: the j-th completed call consumed ticks (2j, 2j+1) of this rank's clock ... raising calls consume one tick
+        li = 0
+        exp = {}
+        for nm, boom in plan_:
+            if boom:
+                li += 1
+                continue
+            exp.setdefault(f'{nm}_r{r}', []).append(float(logs[r][li + 1] - logs[r][li]))
+            li += 2
+        for k, v in exp.items():
+            if got_trace.get(k) != sum(v):
+                return res.violation(f'rank {r}: sum of samples of {k} = {got_trace.get(k)}, scripted clock implies {sum(v)}', case)
+        if any(k.endswith(f'_r{r}') and k not in exp for k in got_trace):
+            return res.violation(f'rank {r}: a sample was recorded for a call that raised', case)
+    res.count('sync_barriers', sum(1 for e in run.trace if e['kind'] == 'barrier'))
+    if ncalls >= 2:
+        res.nontrivial.add('sync-' + stable_hash(W, plan_))
+
+
 _MAXLEN = [40]
 
 
@@ -208,6 +287,8 @@ def run_shard(spec, res):
         rng = case_rng(spec['seed'], ID, i)
         res.evaluations += 1
         run_case(rng, res, i)
+        if i % 10 == 0:
+            run_sync_case(case_rng(spec['seed'], ID, i, 'sync'), res, i)
 
 
 def replay(case, res):
@@ -215,6 +296,8 @@ def replay(case, res):
     # cases are regenerated from (seed, index); both tiers' lengths are tried
     import os
     seed = int(os.environ.get('VERIF_SEED', '0'))
+    if case.get('kind') == 'sync':
+        return run_sync_case(case_rng(seed, ID, case['idx'], 'sync'), res, case['idx'])
     for ml in (40, 200):
         _MAXLEN[0] = ml
         run_case(case_rng(seed, ID, case['case']), res, case['case'])
